@@ -470,9 +470,9 @@ impl Serializable for Instruction {
             }
 
             // ----- debug decorators -------------------------------------------------------------
-            Self::Breakpoint => {
-                // this is a transparent instruction and will not be encoded into the library
-            }
+            // encoded like any other instruction: the number of nodes written in front of a body
+            // counts it, so skipping it here makes the bytes undecodable
+            Self::Breakpoint => OpCode::Breakpoint.write_into(target),
 
             Self::Debug(options) => {
                 OpCode::Debug.write_into(target);
